@@ -35,15 +35,20 @@ CFG = {
     "shrink": [(4, "|"), (0, ";")],
     "search_rounds": 1,
     "search_tier": "quick",
-    "rule": "part 1 (bounded exhaustive): three fixed workspaces (single buildpack + foreign directory; two libcnb.rs buildpacks with 3 and 1 bin "
+    "rule": "part 1 (bounded exhaustive): six fixed workspaces (three with special roots: the workspace root itself a libcnb.rs buildpack "
+            "[root package + members] next to a member that is not among its dependencies; a composite at the root with members below and a "
+            "buildpack nested inside another buildpack's directory; a buildpack crate that is its own cargo workspace [excluded from the outer "
+            "one, own target/ and packaged/] with a composite nested in it; and: single buildpack + foreign directory; two libcnb.rs buildpacks with 3 and 1 bin "
             "targets + foreign + two stacked composites with libcnb:/path/docker/https dependencies; a composite whose directory contains one of "
             "its libcnb.rs dependencies + an ambiguous crate + a standalone one) x every invocation directory (root, every buildpack directory "
-            "incl. foreign, one plain directory) x dev/release, clean package directory. part 2: 28 (quick) / 300 (thorough) seeded random "
+            "incl. foreign, plain directories incl. <buildpack>/src = inside a buildpack but not a buildpack directory) x dev/release, clean package directory. part 2: 28 (quick) / 300 (thorough) seeded random "
             "workspaces: 1..3 (thorough 1..5) libcnb.rs buildpacks (bin targets: main only / main+1 / main between 2 others / a single one not "
             "named like the package / two with none named like the package (ambiguous) / none; at most one undetermined crate per workspace), "
             "0..2 (3) composites whose dependencies mix libcnb: references to libcnb.rs buildpacks and earlier composites (DAG), relative "
             "paths to the foreign directory spelled with ./ // sub/.. , to nowhere, docker/https/urn/file/absolute URIs, 1/24 a dangling "
-            "libcnb: reference, 1/25 a libcnb: reference to the foreign buildpack; 0..1 (2) foreign buildpack directories; 4 descriptor "
+            "libcnb: reference, 1/25 a libcnb: reference to the foreign buildpack; 0..1 (2) foreign buildpack directories; 1/4 of the workspaces have a libcnb.rs "
+            "buildpack AT the workspace root, 1/8 a composite at the root, 1/4 a crate nested inside the first crate's directory, 1/4 a last crate "
+            "that is its own cargo workspace (kind S); one invocation from <crate>/src or another plain directory 1/2 of the time; 4 descriptor "
             "spellings (comments, CRLF, non-ASCII, inline tables); an .ignore file for the package directory; each x every invocation "
             "directory (unselectable ones — foreign, plain — 1/3 of the time), with random profile, --package-dir (default 3/5; relative, relative with dots, leaving the workspace, absolute, "
             "absolute with trailing slash, absolute with ..), and package-directory history: clean 6/20; 1..6 pre-seeded entries 7/20 (stale "
@@ -57,8 +62,11 @@ CFG = {
                      "the abstraction from a generated cargo workspace to the model's abstract workspace (ids, directories, package names, bin targets, "
                      "descriptor bytes) is part of the harness; so is the recognition of artifacts and of package.toml documents",
                      "cargo/rustc/ignore::Walk/std::fs are runtime: modelled (Content.artifact, ws.dirs, flat tree), sampled by the correspondence"],
-    "assumptions": COMMON_ASSUME + ["the workspace carries an ignore file (.ignore) for the package directory (property quantifier)",
+    "assumptions": COMMON_ASSUME + ["cargo locate-project --workspace resolves to the innermost enclosing crate that is its own workspace, else to the outer root "
+                                    "(Model effectiveWorkspace; cargo is runtime, sampled)",
+                                    "the workspace carries an ignore file (.ignore) for the package directory (property quantifier)",
                                     "buildpack ids are pairwise distinct, their directory names are not '.' or '..', libcnb: references form a DAG",
                                     "remove_dir_all of an output directory succeeds (its result is ignored by the code; it does for root and for anything the tool itself writes)",
-                                    "every libcnb.rs crate is a member of the cargo workspace at the root; bin target names are unique per workspace"],
+                                    "every libcnb.rs crate is a member of the cargo workspace at the root or (kind S) its own workspace excluded from it; bin target names are unique per workspace; "
+                                    "an earlier run in a case belongs to the same cargo workspace as the observed one"],
 }
